@@ -246,6 +246,23 @@ pub fn run(op: &str, a: &Value) -> Value {
         }
         // ============================================================ Var interface, forgetting (C19)
         "var.script" => crate::var_ops::run_script(a),
+        "var.script_eval" => {
+            // end to end: build the expression, forget the variable copies, strictify, evaluate
+            let built = crate::var_ops::run_script(a);
+            if built["tag"] != "ok" {
+                return json!({"tag": "val", "val": {"built": built, "outs": []}});
+            }
+            let term = lax_in(&built["val"]);
+            let g = lax::var::forget::forget(&term);
+            let s = g.clone().to_strict();
+            let mut outs = vec![];
+            for inp in arr(&a["inputs"]) {
+                let inputs: Vec<u8> = vec_us(inp).into_iter().map(|x| x as u8).collect();
+                let (r, _) = sv::eval_logged(&s, inputs);
+                outs.push(opt(r.map(|v| json!(v))));
+            }
+            val(json!({"built": built, "forgot": lax_out(&g), "outs": outs}))
+        }
         "var.forget" => val(lax_out(&lax::var::forget::forget(&lax_in(&a["f"])))),
         "var.forget_monogamous" => val(lax_out(&lax::var::forget::forget_monogamous(&lax_in(&a["f"])))),
         "var.forget_eval" => {
